@@ -10,10 +10,10 @@ Local Open Scope N_scope.
 Lemma st_get_spec (w w' : world obj) n r :
   st_get w n = (w', r) →
   w_store w' = w_store w ∧
-  (r = RCrash ∨ r = RErr ∨ r = ROk (w_store w !! n)) ∧
+  (r = RCrash ∨ r = RErr ∨ r = ROk (w_store w !! n) ∨ r = ROk (garble (w_store w !! n))) ∧
   (r = RCrash → w_crashed w' = true) ∧ (w_crashed w = true → w_crashed w' = true).
 Proof.
-  unfold st_get. destruct (w_io w) as [|[|e] io]; intros [= <- <-]; simpl;
+  unfold st_get. destruct (w_io w) as [|[|[]] io]; intros [= <- <-]; simpl;
     repeat split; auto; try discriminate.
 Qed.
 
@@ -60,8 +60,9 @@ Proof.
   unfold load_or_create. destruct (st_get w NMan) as [w1 g] eqn:Hg.
   apply st_get_spec in Hg as (Hs & Hr & Hc & Hm). unfold cur_manifest.
   destruct g as [[[[]|]|]| |]; intros [= <- <-]; repeat split; auto; try discriminate;
-    intros m' [= <-]; destruct Hr as [Hr|[Hr|Hr]]; try discriminate;
-    injection Hr as Hr; by rewrite <- Hr.
+    intros m' [= <-]; destruct Hr as [Hr|[Hr|[Hr|Hr]]]; try discriminate;
+    injection Hr as Hr; try (by rewrite <- Hr);
+    destruct (w_store w !! NMan); simpl in Hr; try discriminate; done.
 Qed.
 
 Lemma save_spec (w w' : world obj) m r :
@@ -323,21 +324,29 @@ Lemma read_segs_ok v (w : world obj) segs a w' a' :
   v_strict_get v = true →
   (∀ s, In s segs → ∃ ds, w_store w !! si_key s = Some (Whole (OSeg ds))) →
   read_segs v w segs a = (w', ROk a') →
-  ca_actual a' = ca_actual a ++ segs ∧ ca_missing a' = ca_missing a ∧
-  ca_map a' = fold_left (absorb v) (flat_map (seg_deltas (w_store w)) segs) (ca_map a).
+  ∃ act, (∀ s, In s act → In s segs) ∧
+  ca_actual a' = ca_actual a ++ act ∧ ca_missing a' = ca_missing a ∧
+  ca_map a' = fold_left (absorb v) (flat_map (seg_deltas (w_store w)) act) (ca_map a).
 Proof.
   intros Hv. revert w a. induction segs as [|s segs IH]; intros w a Hex; simpl.
-  { intros [= <- <-]. by rewrite app_nil_r. }
+  { intros [= <- <-]. exists []. by rewrite app_nil_r. }
   destruct (st_get w (si_key s)) as [w1 g] eqn:Hg.
   apply st_get_spec in Hg as (Hs & Hr & _).
   destruct (Hex s (or_introl eq_refl)) as (ds & Hds).
-  destruct Hr as [ -> | [ -> | -> ] ]; [discriminate| |].
+  assert (Hex' : ∀ s', In s' segs → ∃ ds', w_store w1 !! si_key s' = Some (Whole (OSeg ds'))).
+  { intros s' Hs'. rewrite Hs. apply Hex. by right. }
+  destruct Hr as [ -> | [ -> | [ -> | -> ] ] ]; [discriminate| | |].
   { rewrite Hv. discriminate. }
-  rewrite Hds. intros H. apply IH in H.
-  - simpl in H. destruct H as (H1 & H2 & H3). rewrite H1, H2, H3, Hs.
-    rewrite <- app_assoc. repeat split; auto.
-    rewrite fold_left_app. f_equal. unfold seg_deltas. by rewrite Hds.
-  - intros s' Hs'. rewrite Hs. apply Hex. by right.
+  - (* a clean read *)
+    rewrite Hds. intros H. apply IH in H as (act & Hsub & H1 & H2 & H3); [|done].
+    simpl in H1, H2, H3. exists (s :: act). split; [|split; [|split]].
+    + intros s' [<-|Hs']; [by left|right; auto].
+    + by rewrite H1, <- app_assoc.
+    + done.
+    + rewrite H3, Hs. simpl. rewrite fold_left_app. f_equal. unfold seg_deltas. by rewrite Hds.
+  - (* the bytes arrived damaged: the segment is skipped and stays listed *)
+    rewrite Hds. simpl. intros H. apply IH in H as (act & Hsub & H1 & H2 & H3); [|done].
+    exists act. split; [|split; [|split]]; auto. by rewrite H3, Hs.
 Qed.
 
 Lemma delete_all_spec (w : world obj) ns w' dead :
@@ -424,12 +433,13 @@ Section compact_inv.
     assert (Hg : Good cov (w_store w) m conf) by (eapply inv_cur; eauto).
     assert (Hsegok : ∀ s, In s (m_segs m) → seg_ok (w_store w) m s).
     { intros s Hs. destruct Hg as [[Hf _] _]. rewrite Forall_forall in Hf. by apply Hf, elem_of_list_In. }
-    apply read_segs_ok in Hr as (Ha & Hmi & Hmap); [|done|].
+    apply read_segs_ok in Hr as (act & Hact & Ha & Hmi & Hmap); [|done|].
     2: { intros s Hs. rewrite Hs1. by destruct (Hsegok s (select_sub _ _ _ Hs)) as (_ & _ & H). }
     simpl in Ha, Hmi, Hmap. rewrite Hs1 in Hmap.
-    set (sel := select c m) in *. set (st := w_store w) in *.
-    assert (Hselkey : ∀ s, In s sel → si_key s = NSeg (si_id s) ∧ si_id s < m_next m).
-    { intros s Hs. destruct (Hsegok s (select_sub _ _ _ Hs)) as (H1 & H2 & _). auto. }
+    set (st := w_store w) in *.
+    assert (Hsub : ∀ s, In s act → In s (m_segs m)) by (intros s Hs; apply (select_sub c), Hact, Hs).
+    assert (Hselkey : ∀ s, In s act → si_key s = NSeg (si_id s) ∧ si_id s < m_next m).
+    { intros s Hs. destruct (Hsegok s (Hsub s Hs)) as (H1 & H2 & _). auto. }
     assert (Hrep : conf ≠ [] → ∀ s ds d, In s (m_segs m) → In (si_id s) (map si_id (ca_actual a)) →
               st !! si_key s = Some (Whole (OSeg ds)) → In d ds →
               ∃ d', In d' (compact_out cutoff (ca_map a)) ∧ cov d' d).
@@ -438,7 +448,7 @@ Section compact_inv.
       rewrite Hmap. apply Hcf. apply in_flat_map. exists s'. split; [done|].
       unfold seg_deltas. destruct (Hselkey s' Hs') as [Hk' _]. destruct (Hsegok s Hs) as (Hk & _).
       rewrite Hk', Hid, <- Hk, Hobj. done. }
-    assert (Hnotdel : ∀ k, (∀ s', In s' sel → k ≠ NSeg (si_id s')) → ¬ In k (map si_key (ca_actual a))).
+    assert (Hnotdel : ∀ k, (∀ s', In s' act → k ≠ NSeg (si_id s')) → ¬ In k (map si_key (ca_actual a))).
     { intros k Hk Hin. rewrite Ha in Hin. apply in_map_iff in Hin as (s' & Hks & Hs').
       destruct (Hselkey s' Hs') as [Hk' _]. apply (Hk s' Hs'). congruence. }
     assert (Hkeepdel : ∀ s, In s (m_segs m) → ¬ In (si_id s) (map si_id (ca_actual a)) →
